@@ -839,6 +839,8 @@ func (env *Env) evalCall(x *ECall) SV {
 		specFail("len of %s", v.V.Sort.Name)
 	case "cap":
 		return SV{sliceCap(arg(0).V), ti}
+	case "chancap":
+		return SV{Select(vc.heap(env.st, "CHCAP", vc.eng.st.ArrayOf(sortInt, sortInt)), arg(0).V, sortInt), ti}
 	case "off":
 		// off(s): position of s[0] in the backing array elems(s); s[i] == elems(s)[off(s)+i]
 		return SV{sliceOff(arg(0).V), ti}
